@@ -276,3 +276,35 @@ def r5(rr, repo):
     for c in calls:
         kw = {k.arg: U(k.value) for k in c.keywords}
         rr.ob('the exporter hands over the dict it filled under the allow-list test, nothing else', set(kw) <= {'facets'} and not c.args and 'facets' in kw, bmod, c, witness=U(c)[:120], key='handover')
+
+
+@rule('C16.R6', "an allow-list entry is a whole name as configured: the value read from the YAML file is never turned into a set by iterating over it unless it is known not to be a string - set('frames_*') is the set of "
+                "its CHARACTERS, one of them a bare '*', which allows every metric; the environment form splits at commas first")
+def r6(rr, repo):
+    mod, fn = repo.find(f'{CF}::read_allowlist')
+    gets = [c for c in q.calls_in(fn) if isinstance(c.func, ast.Attribute) and c.func.attr == 'get' and c.args and q.const_str(c.args[0]) == 'safe_metrics']
+    rr.floor("reads of 'safe_metrics' from the YAML document", len(gets), 1, mod, fn)
+    for g in gets:
+        st = q.enclosing_stmt(g)
+        names = {U(t) for t in st.targets} if isinstance(st, ast.Assign) else set()
+        # every construct that iterates the value (set(x), a comprehension over x, a for loop over x)
+        def iterates(n):
+            if isinstance(n, ast.Call) and U(n.func) in ('set', 'frozenset', 'list', 'tuple') and n.args and (n.args[0] is g or U(n.args[0]) in names):
+                return n.args[0]
+            if isinstance(n, ast.comprehension) and (n.iter is g or U(n.iter) in names):
+                return n.iter
+            if isinstance(n, ast.For) and (n.iter is g or U(n.iter) in names):
+                return n.iter
+            return None
+        its = [(n, iterates(n)) for n in ast.walk(fn) if iterates(n) is not None]
+        rr.floor("places that iterate the 'safe_metrics' value", len(its), 1, mod, fn)
+        for n, it in its:
+            node = n if hasattr(n, 'lineno') else it
+            # a string is ruled out before: an `if isinstance(<name>, str): <name> = <name>.split(..)` earlier in the same block, or the iteration sits in the else of such a test
+            pre = [x for x in ast.walk(fn) if isinstance(x, ast.If) and isinstance(x.test, ast.Call) and U(x.test.func) == 'isinstance' and len(x.test.args) == 2 and U(x.test.args[0]) in names and 'str' in U(x.test.args[1])
+                   and x.lineno < node.lineno and any(isinstance(a, ast.Assign) and U(a.targets[0]) in names and '.split(' in U(a.value) for a in x.body)]
+            guarded = any(not pol and isinstance(t, ast.Call) and U(t.func) == 'isinstance' and 'str' in U(t.args[1]) for t, pol in q.guards_of(node, stop=fn))
+            rr.ob("the YAML value is iterated only after a string has been ruled out (split into entries, or refused)", bool(pre) or guarded, mod, node,
+                  witness=f'{U(node)[:100]}; isinstance(.., str) handled before: {bool(pre) or guarded}', key='yaml-scalar-not-iterated')
+    envs = [c for c in ast.walk(fn) if isinstance(c, ast.comprehension) and '.split(' in U(c.iter)]
+    rr.ob('the environment form splits the text at commas before anything iterates it', bool(envs), mod, fn, witness=U(envs[0].iter)[:60] if envs else 'no split', key='env-split')
